@@ -356,7 +356,7 @@ Definition run_stream (sid : N) (args : list (list Z)) : list Z :=
   | 501%N => s_c05_leaf args
   | 503%N => s_c05_lengths args
   | 601%N => s_c06_tree args
-  | 102%N | 103%N | 1002%N | 802%N | 402%N | 1407%N | 1408%N | 902%N | 302%N => [1]  (* implementation-only measurement: deep nesting on a small stack *)
+  | 102%N | 103%N | 1002%N | 802%N | 402%N | 1407%N | 1408%N | 902%N | 302%N | 504%N => [1]  (* implementation-only measurement: deep nesting on a small stack *)
   | 1201%N => s_c12_new args
   | 1202%N => s_c12_read args
   | 1203%N => s_c12_takeif args
